@@ -121,6 +121,20 @@ fn verdict(wb: &Workbook) -> String {
     "wf".to_string()
 }
 
+/// why the cols clause fails on some sheet: inverted (min > max), off-grid, or unsorted/overlapping
+fn cols_reason(wb: &Workbook) -> &'static str {
+    for ws in &wb.worksheets {
+        let mut lo = 0i64;
+        for c in &ws.cols {
+            if c.min > c.max { return "inverted"; }
+            if (c.max as i64) > LAST_COLUMN || c.min < 1 { return "off-grid"; }
+            if lo >= c.min as i64 { return "overlap"; }
+            lo = c.max as i64;
+        }
+    }
+    "none"
+}
+
 fn family(op: &Op) -> &'static str {
     match kind(op) {
         "insert_rows" | "insert_columns" | "delete_rows" | "delete_columns" | "move_rows" | "move_columns" => "structural",
@@ -143,8 +157,11 @@ fn witnesses() -> Vec<(&'static str, &'static str, Vec<Op>)> {
         ("notwf:spills after undo", "paste over dynamic anchors, undo (C31 F43)", vec![Op::Redo, inp(6, 1, "=C3:D4"), Op::MoveRows { sheet: 0, at: 6, n: 1, delta: 1 }, inp(2, 4, "={1;2;3}"),
             Op::ClearAll(AreaS { sheet: 0, row: 2, col: 2, w: 2, h: 2 }), inp(3, 3, "=SEQUENCE(A1)*2"),
             Op::CopyPaste { src: AreaS { sheet: 0, row: 7, col: 1, w: 3, h: 3 }, dst_sheet: 0, dst_row: 2, dst_col: 3, cut: false }, Op::Undo]),
-        ("notwf:cols after structural", "delete the columns a descriptor starts in", vec![Op::ColsWidth { sheet: 0, a: 6, b: 8, w: 50.0 }, Op::DeleteCols { sheet: 0, at: 6, n: 2 }]),
-        ("notwf:cols after structural", "delete exactly the descriptor", vec![Op::ColsWidth { sheet: 0, a: 6, b: 7, w: 50.0 }, Op::DeleteCols { sheet: 0, at: 6, n: 2 }]),
+        // F45 (fixed by 5240496): these two must be well-formed now; if not, the class is an ordinary violation
+        ("notwf:cols(inverted) after delete_columns", "delete the columns a descriptor starts in", vec![Op::ColsWidth { sheet: 0, a: 6, b: 8, w: 50.0 }, Op::DeleteCols { sheet: 0, at: 6, n: 2 }]),
+        ("notwf:cols(inverted) after delete_columns", "delete exactly the descriptor", vec![Op::ColsWidth { sheet: 0, a: 6, b: 7, w: 50.0 }, Op::DeleteCols { sheet: 0, at: 6, n: 2 }]),
+        ("notwf:cols(inverted) after undo", "insert columns into a descriptor, undo", vec![Op::ColsWidth { sheet: 0, a: 6, b: 7, w: 50.0 }, Op::InsertCols { sheet: 0, at: 6, n: 2 }, Op::Undo]),
+        ("notwf:cols(off-grid) after insert_columns", "insert a column while the last column has a descriptor", vec![Op::ColsWidth { sheet: 0, a: 16384, b: 16384, w: 50.0 }, Op::InsertCols { sheet: 0, at: 1, n: 1 }]),
         ("notwf:dnames after sheets", "delete a sheet a defined name is scoped to", vec![Op::NewSheet, Op::NewName { name: "Name1".into(), scope: Some(1), formula: "Sheet2!$A$1".into() }, Op::DeleteSheet(1)]),
     ]
 }
@@ -176,6 +193,49 @@ fn main() {
         let w = wb_wire(&m.workbook);
         if w != "wb 0 1 2 1 0 1 0 0 0 0 0 1 83.104.101.101.116.49 83.72.69.69.84.49 1 0 0 0 0" {
             or.fail("init-differs", json!({"dump": w}), "Model::new_empty no longer builds the skeleton Wf.init describes".into());
+        }
+    }
+    // ---- tie: the descriptor part of delete_columns / insert_columns on sheets without cells -------
+    let mut surgery = 0u64;
+    {
+        // every well-formed layout over columns 1..=ncol (each column: free / starts a descriptor / continues one),
+        // the same layouts moved to the end of the grid, every band
+        let ncol: i32 = if a.thorough { 7 } else { 6 };
+        let mut layouts: Vec<Vec<(i32, i32)>> = vec![];
+        let total = 3u32.pow(ncol as u32);
+        for code in 0..total {
+            let (mut x, mut cur, mut ok, mut prev) = (code, vec![], true, 0u32);
+            for col in 1..=ncol {
+                let d = x % 3; x /= 3;
+                match d {
+                    0 => {}
+                    1 => cur.push((col, col)),
+                    _ => { if prev == 0 || cur.is_empty() { ok = false; break; } let l = cur.len(); cur[l - 1].1 = col; }
+                }
+                prev = d;
+            }
+            if ok { layouts.push(cur); }
+        }
+        let mk = |l: &Vec<(i32, i32)>, off: i32| -> Vec<Col> { l.iter().map(|(a, b)| Col { min: a + off, max: b + off, width: 50.0, custom_width: true, style: None, hidden: false }).collect() };
+        let show = |cols: &Vec<Col>| -> String { let mut o = format!("{}", cols.len()); for c in cols { o.push_str(&format!(" {} {}", c.min, c.max)); } o };
+        let mut base = Model::new_empty("t", "en", "UTC", "en").unwrap();
+        for off in [0i32, 16384 - ncol] {
+            for l in &layouts {
+                let cols = mk(l, off);
+                for start in (off + 1 - 1).max(0)..=(off + ncol + 1) {
+                    for count in [1i32, 2, 3, 0, -1] {
+                        if count <= 0 && start != off + 2 { continue; }
+                        for which in ["dc", "ic"] {
+                            base.workbook.worksheets[0].cols = cols.clone();
+                            let r = if which == "dc" { base.delete_columns(0, start, count) } else { base.insert_columns(0, start, count) };
+                            let obs = match r { Ok(()) => format!("ok {}", show(&base.workbook.worksheets[0].cols)), Err(_) => "err".to_string() };
+                            // insert_columns(column < 1) is accepted by the code and by the model alike
+                            cs.case(&format!("{which} {start} {count} {}", show(&cols)), &obs);
+                            surgery += 1;
+                        }
+                    }
+                }
+            }
         }
     }
     for (class, what, ops) in witnesses() {
@@ -212,8 +272,10 @@ fn main() {
             if v != "wf" {
                 let fam = family(&op);
                 let class = match (v.as_str(), fam) {
-                    // delete_columns (also reached through undo of insert_columns / redo) leaves an inverted descriptor
-                    ("notwf:cols", "structural" | "undo" | "redo") => "notwf:cols after structural".to_string(),
+                    // F47: insert_columns pushes a descriptor past the last column (F45, the inverted
+                    // descriptor of delete_columns, is fixed: any other cols failure is a violation)
+                    ("notwf:cols", _) if cols_reason(wb) == "off-grid" && kind(&op) == "insert_columns" => "notwf:cols(off-grid) after insert_columns".to_string(),
+                    ("notwf:cols", _) => format!("notwf:cols({}) after {}{}", cols_reason(wb), if ok { "" } else { "failed " }, kind(&op)),
                     // delete_sheet (also through undo of new_sheet / redo) keeps the defined names scoped to the sheet
                     ("notwf:dnames", "sheets" | "undo" | "redo") => "notwf:dnames after sheets".to_string(),
                     // property C31's findings F40-F42 (CSE arrays) and F43/F44 (undo)
@@ -259,7 +321,7 @@ fn main() {
     }
     cs.finish(json!({
         "oracle_failures": or.failures, "oracle_checked": or.checked, "oracle_failures_per_class": or.per_class,
-        "distribution": {"histories": nh, "steps": steps, "failed_calls": failed_calls, "op_kinds": kinds, "xlsx_files": total_files, "xlsx_loaded": loaded, "xlsx_skipped": skipped},
+        "distribution": {"histories": nh, "steps": steps, "failed_calls": failed_calls, "op_kinds": kinds, "xlsx_files": total_files, "xlsx_loaded": loaded, "xlsx_skipped": skipped, "descriptor_surgery_cases": surgery},
         "samples": samples, "distinct_nontrivial": steps + 2 * loaded,
     }));
 }
